@@ -81,7 +81,11 @@ func readBatch(conn *kafka.Conn) (d []string, outcome string) {
 			}
 			return
 		}
-		d = append(d, fmt.Sprintf("%d:%d", m.Offset, msgDigest(m)))
+		e := fmt.Sprintf("%d:%d", m.Offset, msgDigest(m))
+		if m.Topic != "t" || m.Partition != 0 {
+			e += fmt.Sprintf("!topic=%s/%d", m.Topic, m.Partition) // the message does not say where it comes from
+		}
+		d = append(d, e)
 	}
 }
 
@@ -420,6 +424,9 @@ func main() {
 		}
 		iterCase(vers[i%3], o, hwm, items, budgets)
 	}
+	tokCases(gen.New(), thorough)
+	logAppendCases(thorough)
+	controlCases(thorough)
 	expiredCases(r, thorough)
 	readerCases(r, thorough)
 }
